@@ -6,6 +6,7 @@ toolchain go1.23.5
 
 require (
 	github.com/ansible/receptor v0.0.0
+	github.com/gorilla/websocket v1.5.3
 	github.com/minio/highwayhash v1.0.3
 	github.com/rogpeppe/go-internal v1.12.0
 	pgregory.net/rapid v1.3.0
@@ -30,7 +31,6 @@ require (
 	github.com/google/gofuzz v1.2.0 // indirect
 	github.com/google/shlex v0.0.0-20191202100458-e7afc7fbc510 // indirect
 	github.com/google/uuid v1.4.0 // indirect
-	github.com/gorilla/websocket v1.5.3 // indirect
 	github.com/hashicorp/hcl v1.0.0 // indirect
 	github.com/imdario/mergo v0.3.15 // indirect
 	github.com/josharian/intern v1.0.0 // indirect
